@@ -6,7 +6,7 @@ stdin : JSON {"programs": [{"name": str, "src": str, "entry": "main"}]}
 stdout: JSON list, one record per program:
   {"name", "ok": bool, "error": str|None,
    "contexts": [[first_log_index, last_log_index_exclusive], ...]   one per track context,
-   "log":   [[node_idx, opname, parent_idx|-1, classified(0/1)], ...] in insertion order,
+   "log":   [[node_idx, opname, parent_idx|-1, classified(0/1), qubits_in, qubits_out], ...] in insertion order,
    "final": {"nodes": {idx: [opname, parent_idx, [children...]]}, "order": [[src, dst], ...]},
    "hugrs": number of distinct Hugr objects that received nodes}
 `classified` is the real `may_have_side_effect(op)` evaluated at insertion time."""
@@ -36,10 +36,24 @@ def opname(op):
     return type(op).__name__
 
 
+def qubits(op):
+    """(#qubit wires in, #qubit wires out) of an extension op, from its signature."""
+    if not isinstance(op, (ops.ExtOp, ops.Custom)):
+        return 0, 0
+    try:
+        sig = op.outer_signature()
+        return (sum(str(t).count("Qubit") for t in sig.input),
+                sum(str(t).count("Qubit") for t in sig.output))
+    except Exception:
+        return -1, -1
+
+
 def logging_add(self, op, parent=None, num_outs=None, metadata=None):
     n = _orig_add(self, op, parent, num_outs, metadata)
     p = self[n].parent
-    LOG.append([id(self), n.idx, opname(op), -1 if p is None else p.idx, 1 if core.may_have_side_effect(op) else 0])
+    qi, qo = qubits(op)
+    LOG.append([id(self), n.idx, opname(op), -1 if p is None else p.idx,
+                1 if core.may_have_side_effect(op) else 0, qi, qo])
     return n
 
 
